@@ -32,13 +32,19 @@ def code_at(tab, s, j):
     """spec: alphabet index of the upper-cased j-th character; 0 (with an error) for a character outside the alphabet"""
     ch = z3.SubString(s, j, 1)
     idx = str_find(None, z3.StringVal(tab), strupper(ch))
-    return z3.If(z3.And(z3.Length(strupper(ch)) == 1, idx >= 0), idx, 0)
+    return z3.If(in_alphabet(tab, ch), idx, 0)
+
+
+def is_ascii1(ch):
+    from pyvc.engine import strisascii
+    return strisascii(ch)
 
 
 def in_alphabet(tab, ch):
-    """spec: the upper-cased character is ONE character of the alphabet"""
+    """spec: an ASCII character whose upper-case form is ONE character of the alphabet (case folding is the ASCII one: the alphabet has no
+    other letters; which characters that admits exactly is the closed obligation rad50-alphabet, over every code point)"""
     u = strupper(ch)
-    return z3.And(z3.Length(u) == 1, str_find(None, z3.StringVal(tab), u) >= 0)
+    return z3.And(is_ascii1(ch), z3.Length(u) == 1, str_find(None, z3.StringVal(tab), u) >= 0)
 
 
 def bad_at(tab, s, j):
@@ -308,9 +314,103 @@ def unit_lemmas(eng):
     return r
 
 
+def unit_alphabet_closed(eng, which):
+    """exhaustive over every Unicode code point (closed): a single character is accepted by '.rad50' / '^R' iff it is one of the 40 alphabet
+    characters or an ASCII lower-case letter, with the alphabet code of its upper-case form; anything else is an error - never a crash and
+    never a silent mapping through Unicode case folding (the uninterpreted upper() of the vc part is discharged here)"""
+    from spec import rad50 as spec
+    code = r'''
+import sys
+from pdpy11 import reports, parser, radix50
+from pdpy11 import metacommands as _m
+from pdpy11.metacommand_impl import metacommands
+from pdpy11.context import Context
+which = %r
+class Tok:
+    ctx_start = None; ctx_end = None
+    def __init__(self, s): self.s = s
+    def resolve(self, state): return self.s
+accepted, crashed = {}, []
+body = metacommands[".rad50"].fn
+for cp in range(0x110000):
+    ch = chr(cp)
+    errs = []
+    try:
+        with reports.handle_reports(lambda p, i, *l: errs.append(i)):
+            if which == "directive":
+                out = body({"insn": Tok("x")}, Tok(ch))
+                val = int.from_bytes(out, "little") if not errs else None
+            else:
+                ctx = Context("f.mac", "^R" + ch + ";")
+                tok = parser.radix50_literal(ctx)
+                val = tok.resolve({}) if not errs and ctx.pos == 3 else None
+    except (reports.UnrecoverableError, reports.RecoverableError):
+        val = None
+    except Exception as e:
+        crashed.append([cp, type(e).__name__]); val = None
+    if val is not None:
+        accepted[cp] = val
+result = [sorted(accepted.items()), crashed[:40]]
+''' % which
+    r = driver.native([{"kind": "py", "code": code}], driver.tree_root(), timeout=1800)[0]
+    obs = []
+    fn = "metacommands.rad50 (closed, every code point)" if which == "directive" else "parser.radix50_literal (closed, every code point)"
+
+    def ob(label, ok, detail=""):
+        obs.append(dict(label=label, kind="closed", status="proved" if ok else "failed", secs=0.0, path=[], witness=None, detail=str(detail)[:600], events=[], smt2=None,
+                        backend="cpython-eval", unit="rad50-alphabet[%s]" % which, func=fn, cfg=dict(kind="alphabet", which=which), cases=0x110000))
+    if r["status"] != "ok":
+        ob("exhaustive-run-completed", False, r)
+        return dict(unit="rad50-alphabet[%s]" % which, func=fn, paths=1, obligations=obs, wall=0.0)
+    acc, crashed = r["result"]
+    acc = {int(k): v for k, v in acc}
+    want = {}
+    for i, ch in enumerate(spec.ALPHABET):
+        want[ord(ch)] = i * 1600
+        if "A" <= ch <= "Z":
+            want[ord(ch.lower())] = i * 1600
+    if which == "literal":
+        want.pop(ord(" "))               # '^R' followed by a blank is an empty literal, not a character
+    extra = sorted(set(acc) - set(want))
+    missing = sorted(set(want) - set(acc))
+    wrong = sorted(cp for cp in acc if cp in want and acc[cp] != want[cp])
+    ob("no-code-point-crashes(an error report, never an internal exception)", not crashed, [("U+%04X" % c, e) for c, e in crashed])
+    ob("accepted-characters==the-40-alphabet-characters-and-ASCII-lower-case-letters(nothing else, e.g. through Unicode case folding)", not extra and not missing,
+       dict(accepted_outside_the_alphabet=["U+%04X" % c for c in extra], refused_alphabet_characters=["U+%04X" % c for c in missing]))
+    ob("an-accepted-character-has-the-alphabet-code-of-its-upper-case-form", not wrong, ["U+%04X" % c for c in wrong])
+    return dict(unit="rad50-alphabet[%s]" % which, func=fn, paths=1, obligations=obs, wall=0.0)
+
+
+def unit_pack_closed(eng):
+    """radix50.pack_to_int on its whole domain (every string of 0..3 alphabet characters: 65641 cases) against spec.pack - closed, complete"""
+    from spec import rad50 as spec
+    code = "import itertools\nfrom pdpy11 import radix50\nT = %r\nout = []\nfor n in range(4):\n    for t in itertools.product(T, repeat=n):\n        out.append(radix50.pack_to_int(''.join(t)))\nresult = out\n" % spec.ALPHABET
+    r = driver.native([{"kind": "py", "code": code}], driver.tree_root(), timeout=600)[0]
+    import itertools
+    bad = []
+    n = 0
+    if r["status"] == "ok":
+        vals = r["result"]
+        for k in range(4):
+            for t in itertools.product(spec.ALPHABET, repeat=k):
+                s_ = "".join(t)
+                w = (spec.pack(s_) or [0])[0]
+                if vals[n] != w:
+                    bad.append((s_, vals[n], w))
+                n += 1
+    else:
+        bad.append(str(r)[:300])
+    ob = dict(label="pack_to_int==spec.pack-on-every-string-of-0..3-alphabet-characters(short strings padded with spaces on the right)", kind="closed", status="proved" if n == 65641 and not bad else "failed",
+              secs=0.0, path=[], witness=None, detail=str(bad[:4]), events=[], smt2=None, backend="cpython-eval", unit="pack_to_int-closed", func="radix50.pack_to_int (closed, whole domain)",
+              cfg=dict(kind="pack-closed"), cases=n)
+    return dict(unit="pack_to_int-closed", func="radix50.pack_to_int (closed, whole domain)", paths=1, obligations=[ob], wall=0.0)
+
+
+
 def units(tier):
     import itertools
-    us = [("table", "unit_table", {}), ("lemmas", "unit_lemmas", {})]
+    us = [("table", "unit_table", {}), ("lemmas", "unit_lemmas", {}), ("alphabet[directive]", "unit_alphabet_closed", dict(which="directive")),
+          ("alphabet[literal]", "unit_alphabet_closed", dict(which="literal")), ("pack-closed", "unit_pack_closed", {})]
     for n in range(0, 5):
         us.append(("pack_to_int[%d]" % n, "unit_pack_to_int", dict(n=n)))
     shapes = []
@@ -332,18 +432,33 @@ def canary(eng):
     return verify(eng, "canary", run, post, func="canary")
 
 
+def replay_alphabet(o, tree):
+    """the code points named by the exhaustive obligation, through the real assembler: each must be an error (not bytes, not a crash)"""
+    import re
+    cps = sorted({int(m, 16) for m in re.findall(r"U\+([0-9A-F]{4,6})", o.get("detail", ""))} | {0x131, 0x17f, 0x130, 0x212a})[:24]
+    which = (o.get("cfg") or {}).get("which", "directive")
+    jobs = [{"kind": "asm", "sources": [(".rad50 /%s/\n" if which == "directive" else ".word ^R%s\n") % chr(c)]} for c in cps]
+    res = driver.native(jobs, tree)
+    bad = [("U+%04X" % c, r["status"], r.get("code_hex") or r.get("exc")) for c, r in zip(cps, res) if r["status"] != "fail"]
+    return dict(jobs=jobs[:4], expected="every character outside the alphabet is refused with an error", observed=bad[:8], reproduced=bool(bad))
+
+
 def replay(o, tree):
     from spec import rad50 as spec
     cfg = o.get("cfg") or {}
+    if cfg.get("kind") == "alphabet":
+        return replay_alphabet(o, tree)
     # the arithmetic of a failure is independent of the witness strings: replay a fixed probe set through the real assembler
     probes = ["ABC", "abc", "A", "AB", "ABCD", "$.%", "  Z", "X9", "HELLO WORLD"]
-    jobs = [{"kind": "asm", "sources": [".rad50 \"%s\"\n" % p]} for p in probes] + [{"kind": "asm", "sources": [".rad50 <1><2><47>\n"]}, {"kind": "asm", "sources": [".word ^RABC, ^RZ\n"]}]
+    jobs = [{"kind": "asm", "sources": [".rad50 \"%s\"\n" % p]} for p in probes] + [{"kind": "asm", "sources": [".rad50 <1><2><47>\n"]}, {"kind": "asm", "sources": [".word ^RABC, ^RZ\n"]},
+                                                                                   {"kind": "asm", "sources": [".word ^RA, ^RAB, ^Rz9\n"]}]
     # characters outside the alphabet must be errors - including ones whose upper-casing is several alphabet characters (U+FB06 -> 'ST')
     outside = ["\ufb06", "a\ufb06b", "\u00df", "#", "a_b"]
     jobs += [{"kind": "asm", "sources": [".rad50 \"%s\"\n" % p]} for p in outside]
     res = driver.native(jobs, tree)
     exp = [b"".join(w.to_bytes(2, "little") for w in spec.pack(p)).hex() for p in probes] + [((1 * 40 + 2) * 40 + 39).to_bytes(2, "little").hex(),
-                                                                                            b"".join(w.to_bytes(2, "little") for w in spec.pack("ABC") + spec.pack("Z")).hex()]
+                                                                                            b"".join(w.to_bytes(2, "little") for w in spec.pack("ABC") + spec.pack("Z")).hex(),
+                                                                                            b"".join(w.to_bytes(2, "little") for w in spec.pack("A") + spec.pack("AB") + spec.pack("Z9")).hex()]
     exp += ["fail"] * len(outside)
     obs = [r.get("code_hex") if r["status"] == "ok" else r["status"] for r in res]
     return dict(jobs=jobs, expected=exp, observed=obs, reproduced=obs != exp)
